@@ -2266,7 +2266,7 @@ class x86_mn(x86_mn_base):
                 args = [ st, args[0] ]
             elif self.m.name in float_arith_p:
                 args = [ args[0], st ]
-            elif self.m.name in float_arith:
+            elif self.m.name in float_arith and len(args) == 2:
                 if args[0] == st+'(0)':
                     args = [ st, args[1] ]
                 elif args[1] == st+'(0)':
